@@ -93,3 +93,30 @@ def defined_replay(prop, spec, model):
     s += "if bad and np.all(np.isfinite(out.data)):\n    print('REPRODUCED'); sys.exit(1)\n"
     s += "print('NOT-REPRODUCED'); sys.exit(0)\n"
     return s
+
+
+def raises_replay(prop, spec, exc_name):
+    """runs the case (forward and backward) on ordinary floats; REPRODUCED if the real library raises the same exception type"""
+    s = HEADER.format(prop=prop)
+    s += "# case: %s (the symbolic run raised %s)\n" % (spec["name"], exc_name)
+    s += "rng = np.random.RandomState(2)\n"
+    for name, shape in spec.get("carrs", []):
+        s += "%s = np.asarray(rng.rand(*%r) * 0.5 + 0.6)\n" % (name, tuple(shape))
+    if spec.get("setup"):
+        s += spec["setup"].rstrip() + "\n"
+    for ent in spec.get("leaves", []):
+        name, shape = ent[0], tuple(ent[1])
+        layout = ent[2] if len(ent) > 2 else "C"
+        if layout == "F" and len(shape) >= 2:
+            s += "%s = mg.Tensor(np.asarray(rng.rand(*%r) * 0.5 + 0.6).T)\n" % (name, shape[::-1])
+        else:
+            s += "%s = mg.Tensor(np.asarray(rng.rand(*%r) * 0.5 + 0.6))\n" % (name, shape)
+    s += "try:\n"
+    for ln in spec["body"].rstrip().split("\n"):
+        s += "    " + ln + "\n"
+    s += "    out.backward()\n"
+    s += "except Exception as e:\n"
+    s += "    print('raised', type(e).__name__, e)\n"
+    s += "    if type(e).__name__ == %r:\n        print('REPRODUCED'); sys.exit(1)\n" % exc_name
+    s += "print('NOT-REPRODUCED'); sys.exit(0)\n"
+    return s
